@@ -119,14 +119,17 @@ Definition run_c09 (i : option string * string * xdoc) : sx :=
       L [I 0; L [sx_velem v;
                  sx_reserr (x <- read_doc u v ;; g <- link sx_cont x ;; Ok (sx_graph g (xd_name x) (xd_date x)))]]
   end.
-(* the property: the definition loaded back is the definition that was written *)
+(* the property: the definition loaded back is the definition that was written.  A refusal to write is accepted only for what the
+   writer declares unsupported (a time parameter type whose data encoding is not numeric or whose calibrator is a spline: the
+   "supported subset" of the property), and then it has to be that refusal *)
 Definition c09_ok (i : option string * string * xdoc) (out : sx) : bool :=
   let '(u, date, d) := i in
   match out with
   | L [I 0; L [_; back]] =>
+      forallb time_writable (xd_types d) &&
       sx_eqb back (sx_reserr (g <- link sx_cont d ;;
                               Ok (sx_graph g (xd_name d) (Some (match xd_date d with Some x => x | None => date end)))))
-  | _ => false
+  | _ => negb (forallb time_writable (xd_types d)) && sx_eqb out (sx_err EValue)
   end.
 
 (* C15: the harness' observations (W = W, G2 = G3, well-formed, all elements in the namespace, definition unchanged) must all hold *)
